@@ -230,7 +230,7 @@ pub fn run<P: Pat>(args: &Args) -> Value {
                             .or_default() += 1;
                     }
                 }
-                evs.push((sh.stamp(), observe::<P>("end", &name, &config, false, panics)));
+                evs.push((sh.stamp(), observe::<P>("end", &name, &config, false, panics, &[])));
                 write_events(&mut out, evs);
                 out.flush();
                 util::cleanup_domain(&config);
